@@ -81,8 +81,9 @@ def direct_check(ops, resp):
             missing = [k for k in range(1, launched + 1) if k not in ended]
             if missing:
                 fails.append((None, "wait returned while job(s) %s had not finished" % missing, i))
-            if table:
-                fails.append((None, "wait returned and the job table still holds %s" % (table,), i))
+            live = [j for j in table if j[2] != "D"]
+            if live:
+                fails.append((None, "wait returned and the job table still holds live job(s) %s" % (live,), i))
         if op[0] == "W" and extra not in ("ok",):
             fails.append((None, "wait failed: %s" % extra, i))
     # none run twice or lost; foreground order
